@@ -1,6 +1,7 @@
 """Shared machinery: Lean driver, proof build + audit, evidence, known findings, replay files."""
 import hashlib
 import json
+import contextlib
 import os
 import random
 import re
@@ -154,6 +155,19 @@ class LeanResult:
         self.log = ''
         self.wall = 0.0
         self.checker_cmd = ''
+
+
+@contextlib.contextmanager
+def build_lock():
+    """exclusive lock on the lake project while tables are regenerated and the project is built"""
+    import fcntl
+    fh = open(os.path.join(LEAN, '.pbv_build.lock'), 'w')
+    try:
+        fcntl.flock(fh, fcntl.LOCK_EX)
+        yield
+    finally:
+        fcntl.flock(fh, fcntl.LOCK_UN)
+        fh.close()
 
 
 def lean_check(prop_mod, extra_mods=(), thorough=False, timeout=1500):
